@@ -282,11 +282,19 @@ def r6_property_target(ctx):
     _C16.r8_property_target(ctx)
 
 
+def r7_copies_are_deep(ctx):
+    """Comparisons, conditions and imports work on copies of nodes (NumberType._prepare converts its left operand in
+    place): the stored value and unit of a node survive only if those copies share nothing with it (shared with C16.R9)."""
+    from . import C16 as _C16
+    _C16.r9_deep_copies(ctx)
+
+
 RULES = [
     ("C14.R1", "dispatch: constant => error before modification; existing path => modify in place; new path => append; untyped modification of an undefined node => error", r1_dispatch),
     ("C14.R2", "modification pipeline: type check, definition's caster, assignment unit attached then converted into the definition's unit (direction checked), unit-less taken as is", r2_pipeline),
     ("C14.R3", "no bare truth test on a value-carrying expression anywhere in the value path; wrappers have no __bool__/__len__", r3_none_vs_falsy),
     ("C14.R4", "single successful exit dominated by the validation loop, which rejects declared-but-undefined nodes; constant flag written = flag read", r4_final_checks),
+    ("C14.R7", "node copies handed out by queries are deep, so in-place unit alignment during comparisons cannot reach the stored node (shared with C16.R9)", r7_copies_are_deep),
     ("C14.R6", "properties after a definition or modification attach to that node (shared with C16.R8)", r6_property_target),
     ("C14.R5", "every typed-value constructor carries the definition's unit, width and sign; scalar caster table", r5_type_kept),
 ]
